@@ -219,7 +219,10 @@ C03_WholeBodies ==
   { <<Whole(c)>> : c \in {"file", "line", "word"} } \cup { <<[k |-> "whole", c |-> c, neg |-> TRUE], Cls("any")>> : c \in {"file", "line", "word"} }
     \cup { <<Whole("word"), Loop(0, 1, FALSE, Lit(<<sp>>)), Whole("word")>>, <<Cap("w", Whole("word"))>>, <<Whole("line"), Lit(<<nl>>), Whole("line")>>,
            <<Anc("linestart"), Whole("word"), Anc("wordend")>>, <<Loop(1, -1, FALSE, Grp(<<Whole("word"), Lit(<<sp>>)>>))>>,
-           <<Lit(<<sp>>), Whole("word")>>, <<Anc("filestart"), Whole("file"), Anc("fileend")>> }
+           <<Lit(<<sp>>), Whole("word")>>, <<Anc("filestart"), Whole("file"), Anc("fileend")>>,
+           \* a consuming whole-unit directly followed by a literal (the literal's first byte is not the match's first byte)
+           <<Whole("word"), Lit(<<sp>>)>>, <<Whole("line"), Lit(<<nl>>)>>, <<Anc("linestart"), Whole("line"), Lit(<<nl>>), La>>,
+           <<Cap("w", Whole("word")), Lit(<<sp>>), Lb>>, <<Whole("word"), La>>, <<Anc("wordstart"), Whole("word"), Lit(<<nl>>)>> }
 
 (* ===================================================================== C04 *)
 C04_BodiesQ == { <<Lit(<<ba, ba>>)>>, <<Loop(1, -1, FALSE, La)>>, <<La, Loop(0, 1, FALSE, La)>>,
@@ -246,6 +249,20 @@ SIf(c, th, el) == [k |-> "if", c |-> c, th |-> th, el |-> el]
 WStr(s)  == [k |-> "str", s |-> s]
 WName(n) == [k |-> "name", name |-> n]
 
+(* predicates with local names: every evaluation starts from a fresh         *)
+(* environment (a name that was never assigned reads as the empty string),   *)
+(* whatever earlier candidates, iterations or start positions did            *)
+PBoolT == [k |-> "bool", v |-> TRUE]
+PBoolF == [k |-> "bool", v |-> FALSE]
+C01_FreshPreds ==
+  { <<SIf(PBin("==", PVar("seen"), PStr(<<>>)), <<SSet("seen", PStr(<<ba>>)), SRet(PBoolT)>>, <<>>), SRet(PBoolF)>>,
+    <<SIf(PBin("==", PVar("match"), PStr(<<ba>>)), <<SSet("flag", PStr(<<ba>>))>>, <<>>), SRet(PBin("==", PVar("flag"), PStr(<<>>)))>>,
+    <<SSet("acc", PBin("+", PVar("acc"), PVar("match"))), SRet(PBin("==", PVar("acc"), PVar("match")))>> }
+C01_FreshPredCases ==
+  { [defs |-> <<GDef("p", es, pr)>>, body |-> u] :
+      es \in {<<Cls("any")>>, <<Loop(1, 2, FALSE, In(<<La, Lb>>))>>}, pr \in C01_FreshPreds,
+      u \in {<<Ref("p")>>, <<Ref("p"), Ref("p")>>, <<Loop(1, -1, FALSE, Ref("p"))>>, <<Loop(0, 1, TRUE, Ref("p")), Lb>>} }
+
 C05_Trans ==
   << [name |-> "tdup", stmts |-> <<SRet(PBin("+", PVar("match"), PVar("match")))>>],
      [name |-> "tcap", stmts |-> <<SRet(PBin("+", PVar("x"), PStr(<<33>>)))>>],
@@ -254,7 +271,15 @@ C05_Trans ==
                                    SRet(PBin("*", PVar("matchNumber"), PVar("matchLength")))>>],
      [name |-> "tlen", stmts |-> <<SRet(PBin("*", PVar("matchLength"), PNum(2)))>>],
      [name |-> "tif",  stmts |-> <<SIf(PBin("==", PVar("match"), PStr(<<ba>>)), <<SRet(PStr(<<bA>>))>>, <<>>), SRet(PBin("+", PStr(<<60>>), PVar("y")))>>],
-     [name |-> "tset", stmts |-> <<SSet("v", PUn("tail", PVar("match"))), SRet(PBin("+", PVar("v"), PUn("head", PVar("match"))))>>] >>
+     [name |-> "tset", stmts |-> <<SSet("v", PUn("tail", PVar("match"))), SRet(PBin("+", PVar("v"), PUn("head", PVar("match"))))>>],
+     \* every transform item starts from the match's own environment: what one item assigns (the match text, a scratch name,
+     \* a captured name) is not seen by the next one
+     [name |-> "twm", stmts |-> <<SSet("match", PBin("+", PVar("match"), PStr(<<33>>))), SRet(PVar("match"))>>],
+     [name |-> "tsv", stmts |-> <<SSet("v", PStr(<<81>>)), SSet("x", PStr(<<90>>)), SRet(PVar("x"))>>],
+     [name |-> "trv", stmts |-> <<SRet(PBin("+", PVar("v"), PVar("match")))>>],
+     \* the built-ins are visible inside a transform whether or not they are also named as plain items
+     [name |-> "tbi", stmts |-> <<SRet(PBin("+", PBin("+", PVar("startOffset"), PStr(<<45>>)), PBin("+", PVar("endOffset"), PBin("+", PStr(<<47>>), PVar("totalMatches")))))>>],
+     [name |-> "tbv", stmts |-> <<SRet(PBin("+", PVar("value"), PBin("+", PVar("lineNumber"), PBin("+", PStr(<<58>>), PVar("columnNumber")))))>>] >>
 
 C05_Items ==
   { WStr(<<60>>), WStr(<<>>), WStr(<<ba, bb>>), WName("x"), WName("y"), WName("nope"),
@@ -276,7 +301,7 @@ C05_Withs ==
 
 (* ===================================================================== C06 *)
 C06_Withs == { <<WStr(<<>>)>>, <<WStr(<<120>>)>>, <<WStr(<<120, 121, 122>>)>>, <<WName("value"), WName("value")>>,
-               <<WName("matchNumber")>> }
+               <<WName("matchNumber")>>, <<WName("nosuchname")>> }     \* the last one names nothing: the match is deleted
 C06_Bodies == { <<La>>, <<Lab>>, <<Loop(1, -1, FALSE, La)>>, <<Cls("any")>>, <<Lit(<<bc>>)>> }
 
 (* ===================================================================== C13 *)
